@@ -340,6 +340,7 @@ func (P) Generate(g *core.Gen) {
 	genDishonest(g)
 	genTies(g)
 	genWitnessReserve(g)
+	genSegwitInactive(g)
 }
 
 func genIndependent(g *core.Gen) {
@@ -718,5 +719,29 @@ func genWitnessReserve(g *core.Gen) {
 		s.maxW = uint32(run + g.R.Pick(1, 2, 100, 224, 225, 224+s.txs[n].wt, 225+s.txs[n].wt, 244+225))
 		permute(s, g.R)
 		g.Case("witness-reserve", true, s.line())
+	}
+}
+
+// genSegwitInactive: on the chain without segwit the pool offers transactions
+// that carry witness data; the generator must leave them (and their children)
+// out.
+func genSegwitInactive(g *core.Gen) {
+	for c := 0; c < g.N(15, 120); c++ {
+		pg := newPoolGen(g.R, 1)
+		n := 1 + g.R.Intn(3)
+		for i := 0; i < n; i++ {
+			k := pg.pick(func(u utxo) bool { return pg.s.available(u) && (u.kind == 'S' || u.kind == 'W') })
+			if k < 0 {
+				break
+			}
+			j := pg.add([]inRef{pg.ref(k)}, []byte{'T', 'T'}, g.R.Range(1000, 90000))
+			if g.R.Bool() {
+				pg.add([]inRef{{kind: 'p', k: j, idx: 0}}, []byte{'T'}, g.R.Range(1000, 90000))
+			}
+		}
+		pg.randomPool(poolOpts{n: 1 + g.R.Intn(4), childProb: 30, maxFee: 50000, zeroFeePct: 10, anyKind: true})
+		s := pg.finish(true)
+		permute(s, g.R)
+		g.Case("segwit-inactive", true, s.line())
 	}
 }
